@@ -8,6 +8,8 @@
 (*   raise   the delivery up to the return of the handler: calls of the pre-existing handler          *)
 (*   read    the callbacks seen on the thread of loop L (event, signal number), any order             *)
 (*   quiet   all loops have completed further passes: nothing else may be owed, state as above        *)
+(*   batch   several subscription calls made in one task of a loop                                    *)
+(*   hold / release   a loop thread is kept busy in a task (deliveries queue up) / let go              *)
 (*   end     loops destroyed                                                                          *)
 (* A Fault line (crash, sanitizer report, uncaught exception) matches nothing.                        *)
 EXTENDS Signals, Integers, Json, IOUtils
@@ -19,7 +21,7 @@ tvars == <<vars, l>>
 Ev == Log[l]
 IsEv(e) == l <= Len(Log) /\ Log[l].e = e /\ l' = l + 1
 ToSet(s) == {s[i] : i \in DOMAIN s}
-Unused == [used |-> FALSE, L |-> 1, sigs |-> {}, os |-> FALSE]
+Unused == [used |-> FALSE, L |-> 1, sigs |-> {}, os |-> FALSE, prog |-> <<>>]
 
 \* observations after the step (primed state).  The disposition must be "orig" (handler, flags and mask equal to the
 \* saved ones) whenever the model says nobody is subscribed; while somebody is subscribed it is not constrained.
@@ -30,28 +32,65 @@ Post   == PostEn /\ PostD
 \* calls of the pre-existing handler since just before the delivery
 SentOK(S, n) == Ev.sentbad = 0 /\ \A S2 \in Sigs : Ev.sent[S2] = (IF S2 = S THEN n ELSE 0)
 
-TInit == /\ cfg = [e \in Events |-> Unused] /\ kind = [S \in Sigs |-> "info"]
+TInit == /\ held = {} /\ cfg = [e \in Events |-> Unused] /\ kind = [S \in Sigs |-> "info"]
          /\ st = [e \in Events |-> "none"] /\ k = K0(kind) /\ op = Op0 /\ h = Idle /\ g = G0
          /\ fired = [e \in Events |-> 0] /\ l = 1
 
 TReset ==
   /\ IsEv("Reset")
   /\ cfg' = [e \in Events |-> IF e <= Len(Ev.ev)
-                              THEN [used |-> TRUE, L |-> Ev.ev[e].L, sigs |-> ToSet(Ev.ev[e].sigs), os |-> Ev.ev[e].os]
+                              THEN [used |-> TRUE, L |-> Ev.ev[e].L, sigs |-> ToSet(Ev.ev[e].sigs), os |-> Ev.ev[e].os, prog |-> Ev.ev[e].prog]
                               ELSE Unused]
   /\ kind' = [S \in Sigs |-> Ev.kind[S]]
   /\ st' = [e \in Events |-> IF e <= Len(Ev.ev) THEN "off" ELSE "none"]
-  /\ k' = K0(kind') /\ op' = Op0 /\ h' = Idle /\ g' = G0 /\ fired' = [e \in Events |-> 0]
+  /\ k' = K0(kind') /\ op' = Op0 /\ h' = Idle /\ g' = G0 /\ fired' = [e \in Events |-> 0] /\ held' = {}
 
 Same == UNCHANGED vars
 
+\* numbers whose signal has no subscriber in the loop (any more) are read and dropped without a callback
+RECURSIVE SkipEmpty(_, _)
+SkipEmpty(kk, L) ==
+  IF kk.hp[L] /\ kk.pipe[L] # <<>> /\ kk.subs[L][Head(kk.pipe[L])] = {}
+  THEN SkipEmpty([kk EXCEPT !.pipe[L] = Tail(@)], L) ELSE kk
+RECURSIVE SkipAll(_, _)
+SkipAll(kk, Ls) == IF Ls = {} THEN kk ELSE SkipAll(SkipEmpty(kk, Min(Ls)), Ls \ {Min(Ls)})
+
+\* longest prefix of the observed callbacks that can belong to the dispatch of one number S: distinct subscribers of the copied set
+RECURSIVE PrefixLen(_, _, _, _)
+PrefixLen(seq, todo, S, seen) ==
+  IF seq = <<>> \/ seq[1][2] # S \/ seq[1][1] \notin todo \/ seq[1][1] \in seen THEN 0
+  ELSE 1 + PrefixLen(Tail(seq), todo, S, seen \cup {seq[1][1]})
+
+\* The callbacks observed on the thread of loop L, in the order they happened, against the numbers waiting in the loop's
+\* pipe: for every number the subscribers of the set copied at that moment are served in the observed order (each runs its
+\* one-shot self-disable and its program); a subscriber of the copy may be left out only if a callback of this very dispatch
+\* unsubscribed it (the statement does not say whether an event disabled by an earlier callback is still served).
+RECURSIVE Consume(_, _, _, _)
+Consume(kk, stt, L, seq) ==
+  LET k1 == SkipEmpty(kk, L) IN
+  IF seq = <<>> THEN [ok |-> TRUE, k |-> k1, st |-> stt]
+  ELSE IF ~k1.hp[L] \/ k1.pipe[L] = <<>> THEN [ok |-> FALSE, k |-> k1, st |-> stt]
+  ELSE LET S == Head(k1.pipe[L])
+           todo == k1.subs[L][S]
+           n == PrefixLen(seq, todo, S, {})
+           order == [i \in 1..n |-> seq[i][1]]
+           r == CallSeq(R0([k1 EXCEPT !.pipe[L] = Tail(@)], stt), L, order)
+           called == {order[i] : i \in 1..n}
+       IN IF n = 0 \/ ~((todo \ called) \subseteq r.exc) THEN [ok |-> FALSE, k |-> k1, st |-> stt]
+          ELSE Consume(r.k, r.st, L, SubSeq(seq, n + 1, Len(seq)))
+
 TRead ==
-  /\ IsEv("read") /\ Ev.L \in Loops /\ SRead(Ev.L)
-  /\ LET called == ReadCalled(k, Ev.L)
-         S == Head(k.pipe[Ev.L])
-     IN /\ Len(Ev.cbs) = Cardinality(called)
-        /\ {Ev.cbs[i][1] : i \in DOMAIN Ev.cbs} = called
-        /\ \A i \in DOMAIN Ev.cbs : Ev.cbs[i][2] = S
+  /\ IsEv("read") /\ Ev.L \in Loops \ held /\ h.pc = "idle" /\ NoOps
+  /\ LET c == Consume(k, st, Ev.L, Ev.cbs) IN c.ok /\ k' = c.k /\ st' = c.st
+  /\ UNCHANGED <<held, cfg, kind, op, h, g, fired>>
+
+\* nothing is owed any more: after dropping subscriber-less numbers every pipe of a loop that is not held is empty
+TQuiet ==
+  /\ IsEv("quiet") /\ h.pc = "idle"
+  /\ k' = SkipAll(k, Loops \ held)
+  /\ \A L \in Loops \ held : k'.pipe[L] = <<>>
+  /\ UNCHANGED <<held, cfg, kind, st, op, h, g, fired>>
+  /\ SentOK(g.sig, g.sent) /\ Post
 
 TNext ==
   \/ TReset
@@ -62,7 +101,10 @@ TNext ==
   \/ IsEv("destroy") /\ Ev.ev \in Events /\ SDestroy(Ev.ev) /\ Post
   \/ IsEv("raise") /\ Ev.s \in Sigs /\ SRaise(Ev.s) /\ SentOK(Ev.s, g'.sent)
   \/ TRead
-  \/ IsEv("quiet") /\ Quiescent /\ Same /\ SentOK(g.sig, g.sent) /\ Post
+  \/ TQuiet
+  \/ IsEv("batch") /\ Ev.L \in Loops /\ SBatch(Ev.L, Ev.ops) /\ Post
+  \/ IsEv("hold") /\ Ev.L \in Loops /\ SHold(Ev.L)
+  \/ IsEv("release") /\ Ev.L \in Loops /\ SRelease(Ev.L)
   \/ IsEv("end") /\ (\A e \in Events : st[e] \in {"none", "absent"}) /\ Same /\ PostD
 TSpec == TInit /\ [][TNext]_tvars
 
